@@ -147,6 +147,11 @@ def run(prog, tier):
                 if w.nodes[ci]['k'] == 'CXXConstructExpr':
                     ctor = ci
 
+    import validators
+    vg_calls = {}
+    for vg in validators.virtual_guards(prog, w):
+        vg_calls.setdefault(vg['call'], []).append(vg)
+
     def atom(state):
         failed, dirty, opn, thr = state
 
@@ -182,6 +187,32 @@ def run(prog, tier):
             if t2:
                 return [(ns, 'next'), ((True, d2, o2, t2), 'throw')]
             return [(ns, 'next'), ((True, d2, o2, t2), 'next')]
+        if nid in vg_calls:
+            # a refusing helper called with a stream test: `helper(f.fail(), ...)` with helper(bool c) { if (c) throw ...; }
+            from facts import eval_bool
+            res_ = []
+            for vg in vg_calls[nid]:
+                cf = vg['callee']
+                cn = cf.nodes[cf.strip(vg['cond'], 'all')]
+                neg = False
+                while cn['k'] == 'UnaryOperator' and cn['op'] == '!':
+                    neg = not neg
+                    cn = cf.nodes[cf.strip(cn['ch'][0], 'all')]
+                if cn['k'] == 'DeclRefExpr' and cn['decl'].get('dk') == 'param':
+                    pidx = [p_['id'] for p_ in cf.params].index(cn['decl']['id'])
+                    args = w.call_args(w.nodes[nid])
+                    if pidx < len(args):
+                        val = eval_bool(w, args[pidx], atom(state))
+                        if val is not None:
+                            val = (not val) if neg else val
+                            throws = (val == vg['throws_when'])
+                            res_.append('throw' if throws else 'next')
+                            continue
+                res_.append(None)
+            if res_ and all(r is not None for r in res_):
+                if 'throw' in res_:
+                    return [(state, 'throw')]
+                return [(state, 'next')]
         if nid == ctor:
             n = w.nodes[nid]
             if n['callee']['nparams'] == 0:
